@@ -245,7 +245,7 @@ pub fn check(tier: Tier) -> i32 {
     rep.scope(&format!("1-document streams ({} documents x keep)", one.len()), n, done == ((one.len() + 255) / 256) as u64);
     // two-document streams
     let first = docs_over(&directive_sets(1), false, &[0]);
-    let second = docs_over(&directive_sets(if tier == Tier::Quick { 1 } else { 2 }), false, &[0, 2]);
+    let second = docs_over(&directive_sets(2), false, &[0, 2]);
     let (acc, done) = par_blocks(first.len() as u64, &budget, |b, acc| {
         for s in &second {
             for sep in [false, true] {
